@@ -16,13 +16,13 @@ def run_deck(job):
            'opts': list(job.get('opts', ()))}
     if res['result'] == 'ok':
         t4 = t4file.parse(res['out'])
-        rec['file'] = t4file.project(t4, deck['pts'], with_witness=job.get('with_witness', False))
+        rec['file'] = t4file.project(t4, deck['pts'], with_witness=True)
         if job.get('keep_parsed'):
             rec['t4'] = t4
     return rec
 
 
-EMPTY_FILE = {'surfs': [], 'trs': [], 'vols': [], 'endg': True, 'njunk': 0, 'rows': [],
+EMPTY_FILE = {'surfs': [], 'trs': [], 'vols': [], 'endg': True, 'njunk': 0, 'rows': [], 'wit': [],
               'compo': {'present': False, 'declared': 0, 'names': [], 'ncounts_ok': True,
                         'finite': True, 'njunk': 0},
               'geomcomp': {'present': False, 'rows': []},
